@@ -5,6 +5,7 @@
 import MelModel.Proto
 import MelModel.ProtoState
 import MelModel.Merkle
+import MelModel.Genesis
 open Mel Mel.VM Mel.Proto
 
 /-! ### VM-level operations -/
@@ -180,11 +181,7 @@ def handleGenesis (w : DWorld) (args : List String) : DWorld × String :=
       let coin ← parseCoinData coin
       let fp ← fp.toNat?; let fm ← fm.toNat?
       let stakes ← parseEntries parseStakeEntry stakes
-      let proto : State := { network := net, height := 0, history := [], coins := {}, txs := [], feePool := fp,
-                             feeMultiplier := fm, tips := 0, doscSpeed := MICRO_CONVERTER, pools := [],
-                             stakes := stakes.foldl (fun m e => StakeSet.addStake m e.1 e.2) [] }
-      let st := { proto with coins := ({} : CoinMap).insertCoin { txhash := zeroHash, index := 0 }
-                                        { coinData := coin, height := 0 } proto.tip906 }
+      let st := genesisState { network := net, initCoindata := coin, stakes := stakes, initFeePool := fp, initFeeMultiplier := fm }
       some ({ w with unsealed := (name, st) :: w.unsealed }, s!"ok {dumpState st}")
     r.getD (w, "bad-op")
   | _ => (w, "bad-op")
